@@ -260,4 +260,148 @@ func gen(c *lib.Ctx) {
 	}
 }
 
-func main() { ntsx.Main(gen) }
+// ---------------------------------------------------------------- earlier results stay what they were
+
+// colon turns a one-shot answer ("ok 15 aa bb", "ok [..]", "err auth") into the form a seq.run
+// answer uses for one call.
+func colon(ans string) string { return strings.Join(strings.Fields(ans), ":") }
+
+type keptCall struct {
+	step    string // token of the seq.run op
+	oneShot string // the same call as an op of its own ("" for x)
+	kind    string
+}
+
+// genKept: several interleaved associations; every call is made once on its own (answer rendered
+// at once) and then inside sequences whose results are rendered only after the last call. Oracle:
+// every result of a sequence is the one-shot result of that call — values returned by Decrypt /
+// Decode / ProcessRequest / ProcessResponse / ExportKeys do not change under later calls. Nothing
+// here depends on scheduling: a sequence runs on one goroutine.
+func genKept(c *lib.Ctx) {
+	r := c.Rand.Fork("kept")
+	rounds := c.Scale(6, 40)
+	for ri := 0; ri < rounds; ri++ {
+		c.Comment(fmt.Sprintf("kept %d", ri))
+		keys := map[int][]byte{1: r.Bytes(32), 2: r.Bytes(32)}
+		var calls []keptCall
+		na := 2 + r.Intn(4)
+		for a := 0; a < na; a++ {
+			s := ntsx.NewSession(r)
+			id := 1 + r.Intn(2)
+			var pool [][]byte
+			for i := 0; i < 1+r.Intn(3); i++ {
+				pool = append(pool, ntsx.IssueCookie(c, r, s, keys[id], id))
+			}
+			if pool[0] == nil {
+				continue
+			}
+			calls = append(calls, keptCall{fmt.Sprintf("d:%s:%s", lib.Hex(pool[0]), lib.Hex(keys[id])),
+				fmt.Sprintf("ck.decrypt %s %s", lib.Hex(pool[0]), lib.Hex(keys[id])), "decrypt"})
+			if r.Chance(40) {
+				wrong := keys[3-id]
+				calls = append(calls, keptCall{fmt.Sprintf("d:%s:%s", lib.Hex(pool[0]), lib.Hex(wrong)),
+					fmt.Sprintf("ck.decrypt %s %s", lib.Hex(pool[0]), lib.Hex(wrong)), "decrypt-wrong-key"})
+			}
+			if a == 0 || r.Chance(40) {
+				if plain, ok := ntsx.OkHex(ntsx.Do(c, fmt.Sprintf("sc.enc %d %s %s", s.Algo, lib.Hex(s.S2C), lib.Hex(s.C2S)))); ok {
+					calls = append(calls, keptCall{"s:" + lib.Hex(plain), "sc.dec " + lib.Hex(plain), "decode"})
+				}
+			}
+			if a < 2 || r.Chance(50) {
+				req, uid, _ := ntsx.Request(c, r, pool, s.C2S)
+				if req == nil {
+					continue
+				}
+				calls = append(calls, keptCall{fmt.Sprintf("q:%s:%s", lib.Hex(req), lib.Hex(s.C2S)),
+					fmt.Sprintf("nts.req %s %s", lib.Hex(req), lib.Hex(s.C2S)), "request"})
+				if resp, ok := ntsx.OkHex(ntsx.Reply(c, r, req, keys, id, len(ntsx.Walk(req))+2)); ok {
+					calls = append(calls, keptCall{fmt.Sprintf("p:%s:%s:%s", lib.Hex(resp), lib.Hex(s.S2C), lib.Hex(uid)),
+						fmt.Sprintf("nts.resp %s %s %s", lib.Hex(resp), lib.Hex(s.S2C), lib.Hex(uid)), "response"})
+				}
+			}
+		}
+		calls = append(calls, keptCall{"x", "", "export"})
+		want := make([]string, len(calls))
+		for i, k := range calls {
+			if k.oneShot == "" {
+				want[i] = "x:32:32:ne"
+				continue
+			}
+			want[i] = colon(ntsx.Do(c, k.oneShot))
+		}
+		run := func(idx []int, label string) {
+			steps := make([]string, len(idx))
+			for i, j := range idx {
+				steps[i] = calls[j].step
+			}
+			op := "seq.run " + strings.Join(steps, " ")
+			ans := ntsx.Do(c, op)
+			ntsx.NoCrash(c, op, ans, "a sequence of calls ("+label+")")
+			c.Count("kept:seq:" + label)
+			body, unstable := ans, ""
+			if i := strings.Index(ans, " unstable="); i >= 0 {
+				body, unstable = ans[:i], ans[i+10:]
+			}
+			parts := strings.Split(strings.TrimPrefix(body, "ok "), " | ")
+			if !strings.HasPrefix(ans, "ok ") || len(parts) != len(idx) {
+				c.Fail("kept:seq-failed", "a sequence of calls did not answer: "+ans, []string{op}, nil)
+				return
+			}
+			for i, j := range idx {
+				c.Count("kept:call:" + calls[j].kind)
+				if parts[i] != want[j] {
+					ops := []string{op}
+					if calls[j].oneShot != "" {
+						ops = append(ops, calls[j].oneShot)
+					}
+					c.Fail("kept:"+calls[j].kind+":changed", fmt.Sprintf("the result of call %d (%s) read after %d further calls is not what the call returns on its own",
+						i, calls[j].kind, len(idx)-1-i), ops, map[string]any{"position": i, "got": parts[i], "want": want[j], "sequence": label})
+					return
+				}
+			}
+			if unstable != "" {
+				c.Fail("kept:unstable", "values returned by earlier calls changed under later calls (positions "+unstable+")", []string{op}, map[string]any{"sequence": label})
+			}
+		}
+		n := len(calls)
+		// every ordered pair of decrypts of different associations, then the first one again: A B A
+		var dec []int
+		for i, k := range calls {
+			if k.kind == "decrypt" {
+				dec = append(dec, i)
+			}
+		}
+		for x := 0; x < len(dec) && x < 3; x++ {
+			for y := 0; y < len(dec) && y < 3; y++ {
+				if x != y {
+					run([]int{dec[x], dec[y], dec[x]}, "decrypt-A-B-A")
+				}
+			}
+		}
+		all := make([]int, n)
+		for i := range all {
+			all[i] = i
+		}
+		run(all, "all-in-order")
+		rev := make([]int, n)
+		for i := range rev {
+			rev[i] = n - 1 - i
+		}
+		run(rev, "all-reversed")
+		for i := 0; i < c.Scale(6, 30); i++ {
+			l := 2 + r.Intn(9)
+			idx := make([]int, l)
+			for j := range idx {
+				idx[j] = r.Intn(n)
+			}
+			run(idx, "random")
+		}
+	}
+}
+
+func main() {
+	ntsx.Main(func(c *lib.Ctx) {
+		gen(c)
+		genKept(c)
+	})
+}
